@@ -12,6 +12,7 @@
 //	Decide(op, round)     (first in a round: the round's proposal and every prepare go to every operator) the commits
 //	                      go to `op`: it decides and broadcasts its post-consensus message
 //	RecvPost(to, from)    from's post-consensus message -> `to`
+//	RecvPreAll(to) / RecvPostAll(to)   quorum grain: the messages of all correct operators, in signer order
 //	Tick                  the clock moves to the next position inside the current round / pre-consensus interval
 //
 // Every broadcast is validated, when it appears, by the gate of every other correct peer at the clock's time
@@ -78,8 +79,8 @@ func probeWindow(env *valkit.Env, role spectypes.BeaconRole) {
 		return // no consensus messages
 	}
 	height := uint64(89600)
-	w := kit.NewWorld(4, []int{2, 3, 4}, height, map[int]string{1: "a", 2: "b", 3: "b", 4: "b"}, role)
-	defer w.Close()
+	w := newPooledWorld(4, []int{2, 3, 4}, height, map[int]string{1: "a", 2: "b", 3: "b", 4: "b"}, role)
+	defer releaseWorlds()
 	if err := w.Start(1); err != nil || len(w.Pool) == 0 {
 		panic(fmt.Sprintf("probeWindow: no round-1 proposal: %v", err))
 	}
@@ -151,6 +152,7 @@ type dutyRun struct {
 	sync     bool
 	ranRound map[int]bool
 	maxRound int
+	roleName string // the role's name in the specs ("sync", "contribution", ...)
 }
 
 func newDutyRun(b vh.Behaviour, res *vh.Result, env *valkit.Env) *dutyRun {
@@ -173,7 +175,7 @@ func newDutyRun(b vh.Behaviour, res *vh.Result, env *valkit.Env) *dutyRun {
 	}
 	slot := uint64(89600 + toInt(p["LeaderOffset"]))
 	r := &dutyRun{res: res, b: b, env: env, peers: map[kit.OpID]*valkit.Peer{}, peersRev: map[kit.OpID]*valkit.Peer{},
-		sync: vh.Bool(p, "sync"), ranRound: map[int]bool{}}
+		sync: vh.Bool(p, "sync"), ranRound: map[int]bool{}, roleName: vh.Str(p, "role")}
 	r.w = newDutyWorld(n, silent, role, slot, indices)
 	probeWindow(env, r.w.BR)
 	for _, h := range r.w.Honest {
@@ -200,12 +202,23 @@ func (r *dutyRun) monitor(b *dBroadcast, p kit.OpID, out valkit.Outcome, inOrder
 	if b.Partial != nil {
 		tag = "partial"
 		r.res.Counters["partial_validations"]++
-		r.res.Counters[fmt.Sprintf("partial:%s:type%d:n%d:%s", r.w.Role, b.Partial.Message.Type, r.w.N, out.Class)]++
+		r.res.Counters[fmt.Sprintf("partial:%s:type%d:n%d:%s", r.roleName, b.Partial.Message.Type, r.w.N, out.Class)]++
+	}
+	// a validation call that was descheduled for longer than the timing margin did not happen at the intended virtual
+	// time: a time-dependent ignore (slot / round window) is then not evidence of anything
+	if !out.TimeOK && out.Class == "ignore" && timeDependent(out.Rule) {
+		r.res.Counters["timing_uncertain"]++
+		return
 	}
 	where := fmt.Sprintf("peer %d, %s of correct operator %d, %s duty, committee %d, clock round %d position %d", p, kindOf(b), b.From, r.w.Role, r.w.N, r.gr, r.pos)
 	switch {
 	case out.Class == "panic" || out.Class == "hang":
 		r.res.Violate("C10:validator-"+out.Class, where, r.b.ID, r.step)
+	case out.Class == "reject" && b.Partial != nil && r.dupSubcommitteeFinding(b, out):
+		// recorded finding: the contribution runner signs one selection proof per sync-committee POSITION; two positions of
+		// the validator in one subcommittee give the same signing root twice and the gate rejects the message
+		r.res.Violate("C10:honest-partial-sig-rejected:duplicated-roots-same-subcommittee", "REJECTED ("+out.Rule+"): "+where+
+			fmt.Sprintf("; the duty's sync-committee positions %v share a subcommittee", r.w.Duty.ValidatorSyncCommitteeIndices), r.b.ID, r.step)
 	case out.Class == "reject" && b.Partial != nil:
 		r.res.Violate("C10:honest-partial-sig-rejected:"+out.Rule, "REJECTED: "+where+": "+out.Err, r.b.ID, r.step)
 	case out.Class == "reject":
@@ -217,6 +230,33 @@ func (r *dutyRun) monitor(b *dBroadcast, p kit.OpID, out valkit.Outcome, inOrder
 	case out.Class == "ignore":
 		r.res.Counters["ignored:"+tag+":"+out.Rule]++
 	}
+}
+
+// timeDependent: the gate's rules whose outcome depends on the reception time.
+func timeDependent(rule string) bool {
+	switch rule {
+	case "late message", "early message", "message round is too far from estimated":
+		return true
+	}
+	return false
+}
+
+// dupSubcommitteeFinding recognises exactly the recorded finding: a ContributionProofs message of a contribution duty
+// whose sync-committee positions share a subcommittee, rejected as "duplicated partial signature message".
+func (r *dutyRun) dupSubcommitteeFinding(b *dBroadcast, out valkit.Outcome) bool {
+	if r.w.Role != rk.Contribution || b.Partial.Message.Type != spectypes.ContributionProofs || out.Rule != "duplicated partial signature message" {
+		return false
+	}
+	seen := map[uint64]bool{}
+	shared := false
+	for _, idx := range r.w.Duty.ValidatorSyncCommitteeIndices {
+		sn := idx / (syncCommitteeSize / syncCommitteeSubnetCount)
+		if seen[sn] {
+			shared = true
+		}
+		seen[sn] = true
+	}
+	return shared && len(b.Partial.Message.Messages) == len(r.w.Duty.ValidatorSyncCommitteeIndices)
 }
 
 // validateNew: every not yet seen broadcast goes to the gates of all other correct peers, at the clock's time.
@@ -351,6 +391,20 @@ func (r *dutyRun) apply(a map[string]any) {
 			r.diverge(name+".accepted", true, err.Error())
 		}
 		r.validateNew()
+	case "RecvPreAll", "RecvPostAll":
+		// quorum grain: the messages of all correct operators, in signer order
+		for _, h := range w.Honest {
+			b := w.partialOf(h, name == "RecvPostAll")
+			if b == nil {
+				r.diverge(name+".message", fmt.Sprintf("a partial-signature message of operator %d", h), "not broadcast")
+				continue
+			}
+			if err := w.Deliver(to, b); err != nil {
+				// after the quorum the duty is finished (post-consensus) and later messages are refused: expected
+				r.res.Counters["refused:partial-after-quorum"]++
+			}
+			r.validateNew()
+		}
 	case "Tick":
 		r.flushReverse()
 		r.pos++
@@ -412,7 +466,7 @@ func replayDuty(b vh.Behaviour, res *vh.Result, env *valkit.Env) {
 	res.Counters["duty_behaviours"]++
 	res.Counters["broadcasts"] += len(r.w.Pool)
 	res.Counters["partial_broadcasts"] += np
-	res.Counters[fmt.Sprintf("duty_max_round:%s:n%d:%02d", r.w.Role, r.w.N, r.maxRound)]++
+	res.Counters[fmt.Sprintf("duty_max_round:%s:n%d:%02d", r.roleName, r.w.N, r.maxRound)]++
 }
 
 // compare: the spec's prediction of what has been emitted so far (psent: signer, kind, type, slot, number of roots)
